@@ -32,6 +32,7 @@ func geomDigest(g geom.Geometry) string {
 }
 
 type sharedVal struct {
+	list []geom.Geometry // a shared slice of geometries (argument of UnionMany / NewGeometryCollection)
 	g    geom.Geometry
 	tree *rtree.RTree
 	seq  geom.Sequence
@@ -50,6 +51,9 @@ func (v *sharedVal) digest() string {
 		// the geometry, the sequence of all its coordinates and its envelope are three shared values of their own
 		var sb strings.Builder
 		sb.WriteString(geomDigest(v.g))
+		for _, m := range v.list {
+			sb.WriteString(geomDigest(m))
+		}
 		for i := 0; i < v.seq.Length(); i++ {
 			c := v.seq.Get(i)
 			fmt.Fprint(&sb, bitsHex(c.X), bitsHex(c.Y), bitsHex(c.Z), bitsHex(c.M))
@@ -173,6 +177,15 @@ var pureOps = []pureOp{
 		}
 		return sb.String()
 	}},
+	{"UnionMany", func(a, b *sharedVal) string {
+		// a slice shared by the callers: the functions that take a slice must not reorder or overwrite it
+		if a.list == nil {
+			return "n/a"
+		}
+		r, err := geom.UnionMany(a.list)
+		gc := geom.NewGeometryCollection(a.list)
+		return resStr(r, err) + gc.AsText()
+	}},
 	{"Summary", func(a, b *sharedVal) string { return a.g.Summary() + a.g.String() }},
 	{"DumpCoordinates", func(a, b *sharedVal) string { return fmt.Sprint(seqToks(a.g.DumpCoordinates())) }},
 	{"RotatedMBR", func(a, b *sharedVal) string {
@@ -292,6 +305,12 @@ func purityExec(c Case) Event {
 				vals = append(vals, withParts(geom.NewGeometryCollection([]geom.Geometry{d, pt}).AsGeometry()))
 			}
 		}
+		// shared slices with empty geometries before non-empty ones
+		for k := 0; k < 2; k++ {
+			v := withParts(geom.Geometry{})
+			v.list = []geom.Geometry{vals[k].g, geom.Point{}.AsGeometry(), vals[k+1].g, geom.Polygon{}.AsGeometry(), pt}
+			vals = append(vals, v)
+		}
 		nvals = len(vals)
 	}
 	for i := 0; i < 30; i++ {
@@ -308,7 +327,7 @@ func purityExec(c Case) Event {
 	setOps := []int{}
 	for i, op := range pureOps {
 		switch op.name {
-		case "Union", "Intersection", "Difference", "SymmetricDifference", "UnaryUnion", "Relate", "ConvexHull", "Boundary", "Simplify", "DecodeAll":
+		case "Union", "Intersection", "Difference", "SymmetricDifference", "UnaryUnion", "Relate", "ConvexHull", "Boundary", "Simplify", "DecodeAll", "UnionMany":
 			setOps = append(setOps, i)
 		}
 	}
